@@ -8,6 +8,7 @@ Quantifiers: all values; all texts; all pairs of event streams (`List SItem`: ev
 -/
 import SwimVerif.Proofs.ReconEqMat
 import SwimVerif.Proofs.ReconEqLeaves
+import SwimVerif.Proofs.ReconEqHash
 import SwimVerif.Model.ReconEqProto
 import SwimVerif.Proofs.ReconStruct
 
@@ -147,6 +148,29 @@ canonical streams of equal values hash alike. -/
 theorem C15_hash_canonical (v w : Value) (h : veq v w = true) :
     (evsV v).flatMap evCalls = hnorm v ∧ (evsV v).flatMap evCalls = (evsV w).flatMap evCalls :=
   hash_canonical (by decide) v w h
+
+/-- With C15-N2 repaired too — the implicit-record decision is a look-ahead on the events (`implicitLook`) — the
+event-level `HashParser` (`hashEvs`) gives the normal form `hnorm v` on EVERY layout of EVERY value: `ch` chooses, per
+attribute name, whether a body that may be written without braces is (`@a(1,2)` / `@a(k:1)` vs `@a({1,2})` /
+`@a({k:1})`); `fun _ => true` is the printers' layout.  Hence equal values hash alike whatever mixture of implicit and
+explicit attribute bodies, integer kinds and zero signs their two texts use.  (That `hashCalls text` is `hashEvs` of
+the text's events is checked by the monitor on every `hash` line: reason `model-self-check:hash-events`.) -/
+theorem C15_hash_layout_invariant (ch1 ch2 : List Char → Bool) (v w : Value) (h : veq v w = true) :
+    hashEvs [] (evsG ch1 v) = hnorm v ∧ hashEvs [] (evsG ch1 v) = hashEvs [] (evsG ch2 w) := by
+  have e1 := hashEvs_layout (ch := ch1) v
+  have e2 := hashEvs_layout (ch := ch2) w
+  have hc := hash_canonical (by decide) v w h
+  unfold callsE at e1 e2
+  exact ⟨e1.trans hc.1, by rw [e1, e2]; exact hc.2⟩
+
+/-- The printers' layout `evsP` is what the modelled parser reads from the modelled printers' output (sample). -/
+example :
+    let v : Value := .record (.cons "a".toList (.record .nil (.val (.int .i32 1) (.val (.text "x".toList) .nil)))
+        (.cons "b".toList (.record .nil (.slot (.text "k".toList) (.record .nil (.val (.int .i32 2) .nil)) .nil)) .nil))
+        (.val (.int .i32 3) (.val (.record .nil (.val (.int .i32 4) .nil)) .nil))
+    (events (print .std v)).1 = evsP v ∧ (events (print .compact v)).1 = evsP v ∧ (events (print .pretty v)).1 = evsP v ∧
+    hashCalls (print .pretty v) = hnorm v := by
+  decide +kernel
 
 /-- The hash half of the property is still false of the code, now only because of the comparison (C15-N3): `{{1,2}}`
 and `{1,{2}}` compare equal, are different values, and (rightly) hash differently. -/
